@@ -52,6 +52,10 @@ type B struct {
 	where  string
 	harn   bool
 	Dead   bool // synctest reported a deadlock
+	// DeadClause/DeadDetail, when set by the simulation, name the verdict that a
+	// deadlock at the end of the bubble stands for (clause, kind, where)
+	DeadClause [3]string
+	DeadDetail string
 }
 
 // NewActor starts an actor goroutine inside the bubble.
@@ -196,6 +200,9 @@ func Run(c *sim.Ctx, root func(b *B)) {
 			c.Bugf("harness panic in bubble root: %v at %s", sentinel, b.where)
 		}
 		c.Fail("no-panic", "panic", fmt.Sprintf("%q in %s", sim.PanicMsg(sentinel), b.where), "%v", sentinel)
+	}
+	if b.Dead && b.DeadClause[0] != "" {
+		c.Fail(b.DeadClause[0], b.DeadClause[1], b.DeadClause[2], "%s", b.DeadDetail)
 	}
 	if b.Dead {
 		c.Fail("no-deadlock", "deadlock", "bubble", "goroutines of the bubble were still blocked when the run ended (synctest: deadlock)")
